@@ -78,10 +78,13 @@ def u64Max : Nat := 18446744073709551615
 def parseU32 := parseUnsigned u32Max
 def parseU64 := parseUnsigned u64Max
 
-/-- Digits of `n`, least significant first, for `n > 0`; `[]` for 0. -/
-def revDigits (n : Nat) : List Nat :=
-  if h : n = 0 then [] else (n % 10) :: revDigits (n / 10)
-decreasing_by omega
+/-- Digits of `n`, least significant first, for `n > 0`; `[]` for 0.  Structural recursion on a
+fuel argument (`n` itself is always enough) so that the kernel can evaluate it. -/
+def revDigitsAux : Nat → Nat → List Nat
+  | 0, _ => []
+  | fuel + 1, n => if n = 0 then [] else (n % 10) :: revDigitsAux fuel (n / 10)
+
+def revDigits (n : Nat) : List Nat := revDigitsAux n n
 
 /-- Decimal rendering as Rust's `Display` for unsigned integers: no sign, no leading zeros,
 `"0"` for zero. -/
